@@ -92,15 +92,22 @@ def m2_predict_checks(case, p, rng, observables):
         return checks, None
     C = '[' + ';'.join(sg.zrow(r) for r in coef) + ']'
     X = case['X']
+    # exact comparison needs every intermediate of the float computation to be an exactly represented integer: the
+    # lifted values (all of them appear in the lifted output) must stay far below 2^53 (their signed sums too)
+    EXACT = 2.0 ** 45
     if 'predict' in observables:
         r, _ = dp.safe(lambda: kp2.predict(X))
-        if r is not None and sg.is_integral(r):
+        lt, _ = dp.safe(lambda: kp2.transform(X))
+        if r is not None and sg.is_integral(r) and lt is not None and sg.is_integral(lt, EXACT):
             checks.append(('predict', f'rows_eqb (zpredict {F} {C} {sg.render_raw(X)}) {sg.render_raw(r)}'))
     if 'ptraj' in observables:
         w = kp2.min_samples_
         x0 = pykoop.extract_initial_conditions(X, min_samples=w, n_inputs=nu, episode_feature=ep)
         u = pykoop.extract_input(X, n_inputs=nu, episode_feature=ep)
         for relift in (True, False):
+            lt, _ = dp.safe(lambda: kp2.predict_trajectory(X, relift_state=relift, return_lifted=True, return_input=True))
+            if lt is None or not sg.is_integral(lt, EXACT):
+                continue
             for rl in (False, True):
                 for ri in (False, True):
                     for form in ('single', 'pair'):
